@@ -41,8 +41,15 @@ let proc_main () =
         let env rstv = { Vexp.var = var0 rstv; Vexp.xs = (fun _ -> zi xv); Vexp.arr = (fun _ _ -> zi 0) } in
         (* outputs are sampled before the edge with reset low (what the Verilated harness can observe) *)
         let outs = show (env 0) d.Vexp.outputs in
-        let e1 = env rst in
-        let nxt = SL.map (fun (n, x) -> (ostring_of_coq n, iz (Vexp.eval e1 x))) d.Vexp.next in
+        (* rst = 2: no clock edge, a reset pulse with the clock low: a register changes iff `posedge i_rst` is in the
+           sensitivity list of its block (d.clocking); then its block runs with i_rst = 1 *)
+        let e1 = env (if rst = 2 then 1 else rst) in
+        let sensitive (n : String.string) : bool =
+          rst <> 2 ||
+          (match SL.find_opt (fun (m, _) -> ostring_of_coq m = ostring_of_coq n) d.Vexp.clocking with
+           | Some (_, es) -> SL.exists (fun e -> ostring_of_coq e = "posedge i_rst") es
+           | None -> false) in
+        let nxt = SL.map (fun (n, x) -> (ostring_of_coq n, if sensitive n then iz (Vexp.eval e1 x) else Hashtbl.find st (ostring_of_coq n))) d.Vexp.next in
         P.printf "R %s | %s\n" outs (Stdlib.String.concat " " (SL.map (fun (n, v) -> P.sprintf "%s=%d" n v) nxt));
         SL.iter (fun (n, v) -> Hashtbl.replace st n v) nxt
       | _ -> ()
